@@ -34,9 +34,23 @@ ToaOk(e) ==
 \* --- LDRO: one event = one implementation's decision for one (sf,bw)
 \* impl in {"calc", "sx126x", "sx1272", "sx1276", "lr1110"}; what in {"decision","written"}
 \* supported = 0 : the chip refuses the pair (nothing to check).
+\* The LDRO bit as programmed into the chip, decoded from the raw SPI writes:
+\*  sx126x  SetModulationParams (0x8B) byte 5;  lr1110 SetModulationParam (0x020F) byte 6;
+\*  sx1276  RegModemConfig3 (0x26|0x80) bit 3;  sx1272 RegModemConfig1 (0x1D|0x80) bit 0.
+LastWith(txns, P(_)) ==
+    LET idx == {i \in 1..Len(txns) : P(txns[i])}
+    IN IF idx = {} THEN <<>> ELSE txns[CHOOSE i \in idx : \A j \in idx : j <= i]
+LdroWritten(impl, txns) ==
+    CASE impl = "sx126x" -> LET t == LastWith(txns, LAMBDA t : Len(t) = 5 /\ t[1] = 139) IN IF t = <<>> THEN -1 ELSE t[5]
+      [] impl = "lr1110" -> LET t == LastWith(txns, LAMBDA t : Len(t) = 6 /\ t[1] = 2 /\ t[2] = 15) IN IF t = <<>> THEN -1 ELSE t[6]
+      [] impl = "sx1276" -> LET t == LastWith(txns, LAMBDA t : Len(t) = 2 /\ t[1] = 166) IN IF t = <<>> THEN -1 ELSE (t[2] \div 8) % 2
+      [] impl = "sx1272" -> LET t == LastWith(txns, LAMBDA t : Len(t) = 2 /\ t[1] = 157) IN IF t = <<>> THEN -1 ELSE t[2] % 2
+      [] OTHER -> -1
+
 LdroOk(e) ==
     IF e.supported = 0 \/ LdroAmbiguous(e.sf, e.bw) THEN TRUE
-    ELSE Chk(<<"ldro", e.impl, e.what, e.sf, e.bw>>, IF Ldro(e.sf, e.bw) THEN 1 ELSE 0, e.ldro)
+    ELSE Chk(<<"ldro", e.impl, e.what, e.sf, e.bw>>, IF Ldro(e.sf, e.bw) THEN 1 ELSE 0,
+             IF e.what = "written" THEN LdroWritten(e.impl, e.txns) ELSE e.ldro)
 
 \* all implementations agree with each other on one (sf,bw) (covers the ambiguous pair too)
 LdroAgreeOk(e) ==
@@ -50,7 +64,9 @@ Match(e) ==
       [] OTHER -> Chk("unknown event", "", e.ev)
 
 Init == l = 1
-Next == l <= Len(Rec) /\ Match(Rec[l]) /\ l' = l + 1
+\* Events are independent observations: a mismatch is printed (and counted by the runner) and
+\* validation continues with the next event, so one run reports every deviating input.
+Next == l <= Len(Rec) /\ IF Match(Rec[l]) THEN l' = l + 1 ELSE l' = l + 1
 Spec == Init /\ [][Next]_vars
 
 Accepted ==
